@@ -43,6 +43,11 @@ CONTEXTS = [
     ("lc-arg", "{{lc:%s}}", {}),
     ("uc-arg", "{{uc:%s}}", {}),
 ]
+# functions that consume their argument (MediaWiki drops the markers of protected regions there): the region need not arrive,
+# but no debris of a marker may reach the document
+CONSUMING = {"urlencode-arg": "{{urlencode:%s}}", "anchorencode-arg": "{{anchorencode:%s}}", "padright-fill": "{{padright:x|40|%s}}",
+             "padleft-fill": "{{padleft:x|40|%s}}"}
+DEBRIS = re.compile("UNIQ-|-QINU|\x7f")
 HEAVY_CONTEXTS = ["beside-deep-braces"]  # (parsing the page costs ~10 ms: shorter bodies)
 SENTINEL_CASE = {"lc-arg": str.lower, "uc-arg": str.upper}
 # what stands between the first sentinel and the region (nothing, normally)
@@ -103,7 +108,8 @@ class C09(InputProp):
         # the same region once inside <nowiki> and once for real on one page (one Uniquifier): markers must not be shared
         twins = Product(["math", "pre", "source", "syntaxhighlight", "timeline"], ["real-first", "nowiki-first"],
                         ["top", "bullet", "cell", "bold"], ["w", "x^2 ''a''"], name="twins")
-        self.space = Concat(bodies, heavy, twins)
+        consumed = Product(TAGS, sorted(CONSUMING), Seqs(SIGMA_B, 1 if tier == "quick" else 2, minlen=1), name="consumed")
+        self.space = Concat(bodies, heavy, twins, consumed)
         self.ctx = {c[0]: c for c in CONTEXTS}
         self.baselines = {}
 
@@ -134,6 +140,8 @@ class C09(InputProp):
         if case[0] == "twins":
             return {"twin": case[1]}
         tag, ctxname, body = case[1]
+        if case[0] == "consumed":
+            return {"tag": tag, "context": ctxname, "body": "".join(body), "page": CONSUMING[ctxname] % ("<%s>%s</%s>" % (tag, "".join(body), tag))}
         return {"tag": tag, "context": ctxname, "body": "".join(body), "page": self.page(tag, ctxname, "".join(body))[0]}
 
     def run_twin(self, c):
@@ -174,6 +182,20 @@ class C09(InputProp):
         body = "".join(lex)
         if ("</%s>" % tag) in body.lower() or "\x7f" in body:
             return {"key": "excluded", "counters": {"excluded_own_closing_tag": 1}}
+        if fam == "consumed":
+            text = "before " + CONSUMING[ctxname] % ("%s<%s>%s</%s>%s<%s>w</%s>" % (S0, tag, body, tag, S1, tag, tag)) + " after"
+            try:
+                t = self.parse(title="Test", raw=text, wikidb=LangDB("en", {"T": "tt"}), lang="en")
+            except Exception as e:
+                return {"key": "exc", "viol": [{"sig": "raises:" + exc_signature(e), "msg": "parsing %r raised %r" % (text, e)}]}
+            out = []
+            leaves(t, out)
+            alltext = "".join(out)
+            viol = []
+            if DEBRIS.search(alltext) or not alltext.startswith("before ") or not alltext.rstrip().endswith(" after"):
+                viol.append({"sig": "%s|debris:%s:%s" % (self.feature(lex, tag), tag, ctxname),
+                             "msg": "page %r: pieces of a region marker reach the document: %r" % (text, alltext[:200])})
+            return {"key": (tag, ctxname, bool(viol)), "steps": 1, "viol": viol}
         viol = []
         feature = self.feature(lex, tag)
         try:
